@@ -676,6 +676,7 @@ func runC20(c *Ctx) {
 	for i := 0; i < nB; i++ {
 		c20Blank(c, c.RNG.Fork())
 	}
+	c20BlankEager(c, c.RNG.Fork(), c.scale(30, 600))
 }
 
 // c20SpyDecoder is the inner decoder of the decoder cases: it renders the logical value as JSON for
